@@ -3,23 +3,56 @@ import Ts.Lemmas.C08
 import Ts.Model.App
 /-!
 # Helper lemmas for C02, part 2: the dispatcher frame (packets of other PIDs leave a slot alone)
+
+`specStep_frame'` / `specStep_frame`: one step, any handler semantics, hypothesis on the handler that
+actually consumes the packet.  `QuietAlong`: the same hypothesis along a whole run (run-relative).
+`pushSpec_pes_slot`: the slot of a PES handler over a quiet run.  `QueuesNothingFor` is an older,
+unsatisfiable hypothesis kept only for `Ts.Props.C02.queuesNothingFor_unsat`.
 -/
 namespace Ts.Lemmas.C02
 open Ts Ts.Demux Ts.Lemmas.C08
 
 variable {H C : Type}
 
-/-- whatever handler consumes `pk`, none of the changes it queues names PID `p` -/
+/-- "whatever handler consumes `pk`, in whatever context, none of the changes it queues names PID `p`".
+
+WARNING: this quantifies over ALL handlers `h` and ALL contexts `c0`, not over the handler that is
+actually registered for `pk.pid` in a run.  For the application semantics `App.sem` it is FALSE for
+every `p` and every `pk` (`Ts.Props.C02.queuesNothingFor_unsat`: a `.recorder` handler whose context
+carries the script `[(pk.off / 188, [.ins p])]` queues an insertion for `p`).  It is kept only so
+that this fact can be stated; no theorem uses it as a hypothesis any more.  The run-relative
+replacement is `QuietAlong`. -/
 def QueuesNothingFor (sem : Sem H C) (p : Nat) (pk : Pk) : Prop :=
   ∀ h c0 h' c1 chg, sem.consume h c0 pk = .ok (h', c1, chg) → ∀ ch ∈ chg, ch.pid ≠ p
+
+/-- RUN-RELATIVE quietness: along the ACTUAL run of the dispatcher spec from `tc` over `xs`, every
+unflagged packet of a PID other than `p` is consumed by a handler — THE handler registered for its
+PID at that point of the run, after lookup-or-construct — that queues no change naming `p`.
+Nothing is said about handlers that do not take part in the run, nor about steps after a panic. -/
+def QuietAlong (sem : Sem H C) (p : Nat) : Tab H × C → List Pk → Prop
+  | _, [] => True
+  | tc, pk :: pks =>
+    (pk.pid ≠ p → pk.flagged = false →
+      ∀ t1 c1 h h' c2 chg, ensure sem tc.1 tc.2 pk.pid = .ok (t1, c1) → t1.get pk.pid = some h →
+        sem.consume h c1 pk = .ok (h', c2, chg) → ∀ ch ∈ chg, ch.pid ≠ p)
+    ∧ ∀ tc', specStep sem tc pk = .ok tc' → QuietAlong sem p tc' pks
+
+theorem quietAlong_nil (sem : Sem H C) (p : Nat) (tc : Tab H × C) : QuietAlong sem p tc [] := trivial
+
+theorem quietAlong_cons (sem : Sem H C) (p : Nat) (tc : Tab H × C) (pk : Pk) (pks : List Pk) :
+    QuietAlong sem p tc (pk :: pks) ↔
+      (pk.pid ≠ p → pk.flagged = false →
+        ∀ t1 c1 h h' c2 chg, ensure sem tc.1 tc.2 pk.pid = .ok (t1, c1) → t1.get pk.pid = some h →
+          sem.consume h c1 pk = .ok (h', c2, chg) → ∀ ch ∈ chg, ch.pid ≠ p)
+      ∧ ∀ tc', specStep sem tc pk = .ok tc' → QuietAlong sem p tc' pks := Iff.rfl
 
 /-- FRAME, one step, any handler semantics: a packet of PID `q ≠ p` leaves slot `p` exactly as it
 was, unless the handler that consumes it (the one registered for `q` after lookup-or-construct)
 queues a change naming `p` -/
-theorem specStep_frame (sem : Sem H C) (t : Tab H) (c : C) (pk : Pk) (t' : Tab H) (c' : C) (p : Nat)
+theorem specStep_frame' (sem : Sem H C) (t : Tab H) (c : C) (pk : Pk) (t' : Tab H) (c' : C) (p : Nat)
     (hne : pk.pid ≠ p) (hstep : specStep sem (t, c) pk = .ok (t', c'))
-    (hN : ∀ t1 c1 h h' c2 chg, ensure sem t c pk.pid = .ok (t1, c1) → t1.get pk.pid = some h →
-      sem.consume h c1 pk = .ok (h', c2, chg) → ∀ ch ∈ chg, ch.pid ≠ p) :
+    (hN : pk.flagged = false → ∀ t1 c1 h h' c2 chg, ensure sem t c pk.pid = .ok (t1, c1) →
+      t1.get pk.pid = some h → sem.consume h c1 pk = .ok (h', c2, chg) → ∀ ch ∈ chg, ch.pid ≠ p) :
     t'.get p = t.get p := by
   rw [specStep_eq] at hstep
   cases hE : ensure sem t c pk.pid with
@@ -52,8 +85,16 @@ theorem specStep_frame (sem : Sem H C) (t : Tab H) (c : C) (pk : Pk) (t' : Tab H
           simp only [R.ok_bind] at hstep
           injection hstep with hstep
           injection hstep with e1 e2
-          rw [← e1, get_applyChanges_untouched chg _ p (hN t1 c1 h h' c2 chg hE hg hk),
+          rw [← e1, get_applyChanges_untouched chg _ p (hN hf t1 c1 h h' c2 chg hE hg hk),
             Tab.get_insert_ne _ _ _ _ (Ne.symm hne), hget]
+
+/-- the same with the hypothesis on the consuming handler not restricted to unflagged packets -/
+theorem specStep_frame (sem : Sem H C) (t : Tab H) (c : C) (pk : Pk) (t' : Tab H) (c' : C) (p : Nat)
+    (hne : pk.pid ≠ p) (hstep : specStep sem (t, c) pk = .ok (t', c'))
+    (hN : ∀ t1 c1 h h' c2 chg, ensure sem t c pk.pid = .ok (t1, c1) → t1.get pk.pid = some h →
+      sem.consume h c1 pk = .ok (h', c2, chg) → ∀ ch ∈ chg, ch.pid ≠ p) :
+    t'.get p = t.get p :=
+  specStep_frame' sem t c pk t' c' p hne hstep (fun _ => hN)
 
 /-- one step on the PID of a PES handler: the packet goes through `PesFilter.consume` (= the pure
 step of C08), its callbacks are replayed into the context, the slot holds the new filter state,
@@ -72,14 +113,15 @@ theorem specStep_pes (t : Tab App.Handler) (c : App.Ctx) (pk : Pk) (tag : Nat) (
   | panic s => rfl
   | ok c' => rfl
 
-/-- the slot of a PES handler over an interleaved run: packets of other PIDs that queue no change
-for `p`, and flagged packets, are invisible to it; the state evolves as `PesFilter.run` (its pure
+/-- the slot of a PES handler over an interleaved run that is quiet for `p` (`QuietAlong`: the
+handlers that actually consume the packets of other PIDs queue no change naming `p`): those
+packets, and flagged packets, are invisible to it; the state evolves as `PesFilter.run` (its pure
 form `runPure`) over the unflagged packets of PID `p`, in order -/
 theorem pushSpec_pes_slot (p tag : Nat) : ∀ (xs : List Pk) (t : Tab App.Handler) (c : App.Ctx)
     (f : PesFilter.F) (t' : Tab App.Handler) (c' : App.Ctx),
     t.get p = some (.pes tag f) →
     (∀ pk ∈ xs, pk.pid = p → pk.bytes.length = 188) →
-    (∀ pk ∈ xs, pk.pid ≠ p → QueuesNothingFor App.sem p pk) →
+    QuietAlong App.sem p (t, c) xs →
     pushSpec App.sem (t, c) xs = .ok (t', c') →
     t'.get p = some (.pes tag
       (runPure f ((xs.filter (fun pk => pk.pid == p && !pk.flagged)).map (·.bytes))).1) := by
@@ -102,8 +144,7 @@ theorem pushSpec_pes_slot (p tag : Nat) : ∀ (xs : List Pk) (t : Tab App.Handle
       simp only [R.ok_bind] at hrun
       have h188' : ∀ q ∈ xs, q.pid = p → q.bytes.length = 188 :=
         fun q hq => h188 q (List.mem_cons_of_mem _ hq)
-      have hN' : ∀ q ∈ xs, q.pid ≠ p → QueuesNothingFor App.sem p q :=
-        fun q hq => hN q (List.mem_cons_of_mem _ hq)
+      have hN' : QuietAlong App.sem p (t1, c1) xs := hN.2 (t1, c1) hstep
       by_cases hp : pk.pid = p
       · cases hf : pk.flagged with
         | true =>
@@ -128,8 +169,7 @@ theorem pushSpec_pes_slot (p tag : Nat) : ∀ (xs : List Pk) (t : Tab App.Handle
             have := ih t1 c1 _ t' c' hg1 h188' hN' hrun
             simpa [List.filter_cons, hp, hf, runPure] using this
       · have hg1 : t1.get p = some (.pes tag f) := by
-          rw [specStep_frame App.sem t c pk t1 c1 p hp hstep
-            (fun _ _ h h' c2 chg _ _ hk => hN pk List.mem_cons_self hp h _ h' c2 chg hk)]
+          rw [specStep_frame' App.sem t c pk t1 c1 p hp hstep (fun hf => hN.1 hp hf)]
           exact hg
         have := ih t1 c1 f t' c' hg1 h188' hN' hrun
         simpa [List.filter_cons, hp] using this
